@@ -23,9 +23,13 @@ type c10case struct {
 	LeftKind int   // number of index files the interrupted upload had written (1 or 2)
 	N        int
 	Opt      string // "", "tags", "semver"
+	Batch    int    // 0: default listing page size; otherwise core.BatchSize (squash lists bundles and labels in pages)
 }
 
 func (c c10case) String() string {
+	if c.Batch > 0 {
+		return fmt.Sprintf("k=%d labels=%v leftover(pos=%d,files=%d) retain=%d opt=%q page-size=%d", c.K, c.Labels, c.LeftPos, c.LeftKind, c.N, c.Opt, c.Batch)
+	}
 	return fmt.Sprintf("k=%d labels=%v leftover(pos=%d,files=%d) retain=%d opt=%q", c.K, c.Labels, c.LeftPos, c.LeftKind, c.N, c.Opt)
 }
 
@@ -60,6 +64,10 @@ func c10cases() []c10case {
 								continue // no label at all: same as no option
 							}
 							out = append(out, c10case{K: k, Labels: labels, LeftPos: pos, LeftKind: lk, N: n, Opt: opt})
+							if k >= 2 && (lib.Thorough() || k == maxK) {
+								// listings of more than one page (page size 2)
+								out = append(out, c10case{K: k, Labels: labels, LeftPos: pos, LeftKind: lk, N: n, Opt: opt, Batch: 2})
+							}
 						}
 					}
 				}
@@ -120,6 +128,9 @@ func c10run(t *testing.T, rep *lib.Report, c c10case) {
 			}
 		}
 		opts := []core.Option{core.WithRetainNLatest(c.N)}
+		if c.Batch > 0 {
+			opts = append(opts, core.BatchSize(c.Batch))
+		}
 		switch c.Opt {
 		case "tags":
 			opts = append(opts, core.WithRetainTags(true))
@@ -235,7 +246,7 @@ func TestC10(t *testing.T) {
 	rep := lib.NewReport("C10", "model_checking")
 	defer rep.Finish(t)
 	cases := c10cases()
-	rep.Rule = "exhaustive product: 0..4 (quick 3) committed bundles one fake second apart x per-bundle labels in {none, plain tag, semver tag, plain tag listed before + semver, semver + plain tag listed after} x an interrupted upload (1 or 2 index files written, no descriptor) at every position (none/before/between/after) x retain-N in 1..3 (quick 2) x {no option, retain-tags, retain-semver-tags}; real RepoSquash in a fake-clock bubble; oracle: kept = N most recent committed + labelled per option, the rest and their labels gone (no metadata left), kept bundles download unchanged, most recent committed bundle always kept; plus squash (retain 1, with/without a leftover newer than every bundle, with/without retain-tags) under a single transient failure at EVERY metadata call: bundles to keep are never removed and stay downloadable whatever squash reports, a reported success means exactly the specified set; distinct = distinct cases"
+	rep.Rule = "exhaustive product: 0..4 (quick 3) committed bundles one fake second apart x per-bundle labels in {none, plain tag, semver tag, plain tag listed before + semver, semver + plain tag listed after} x an interrupted upload (1 or 2 index files written, no descriptor) at every position (none/before/between/after) x retain-N in 1..3 (quick 2) x {no option, retain-tags, retain-semver-tags} x listing page size {default, 2 (quick: for the largest histories)}; real RepoSquash in a fake-clock bubble; oracle: kept = N most recent committed + labelled per option, the rest and their labels gone (no metadata left), kept bundles download unchanged, most recent committed bundle always kept; plus squash (retain 1, with/without a leftover newer than every bundle, with/without retain-tags) under a single transient failure at EVERY metadata call: bundles to keep are never removed and stay downloadable whatever squash reports, a reported success means exactly the specified set; distinct = distinct cases"
 	parent := lib.RunCases(t, rep, "TestC10", len(cases), 0, 120*time.Second, func(i int) {
 		c10run(t, rep, cases[i])
 		rep.AddStates(1, 1, 1)
